@@ -80,6 +80,10 @@ fn main() -> anyhow::Result<()> {
             let opts = graph::ReplayOpts { sample, seed, max_div, budget_s };
             graph::replay(&g, &mut d, &opts).to_json("node")
         }
+        "replay-votor-timers" => {
+            let path = arg_after(&args, "--tlc-out").expect("--tlc-out");
+            votor_driver::replay_timers(&path, &[2, 2, 1], seed)?
+        }
         "replay-votor" => {
             let path = arg_after(&args, "--tlc-out").expect("--tlc-out");
             let own: usize = arg_after(&args, "--own").and_then(|s| s.parse().ok()).unwrap_or(0);
